@@ -59,6 +59,19 @@ def run(ctx):
         a, o, t = gen_valid(ctx.rng, ctx.quick, prefix_p=0.2, empty_p=0.04)
         if ctx.rng.random() < 0.12:
             a, o, t = gen_valid_signed_sum(ctx.rng)     # explicit signs against thresholds of either sign, leaves around zero
+        if ctx.rng.random() < 0.15:
+            # atoms and compounds side by side under one node, their ids interleaving in sorted order (a named group between
+            # two items, an item between two named groups; negated and plain), integer atoms included
+            from props.c05 import gen_mixed
+            for _ in range(10):
+                b = gen_mixed(ctx.rng, 1)
+                try:
+                    ob = build(b)
+                    if is_var(ob) or not well_formed(snap(ob)) or ob.errors(): continue
+                except Exception:
+                    continue
+                a, o, t = b, ob, snap(ob); ctx.tags["mixed-atoms-and-compounds-stream"] += 1
+                break
         # reduce() straight on the model as built (sub-propositions pre-fixed by construction reach reduce() as nodes; an
         # assume() before it would already have replaced them by their variable) …
         do_case(ctx, {"ast": a, "A": {}})
